@@ -11,7 +11,11 @@ def run(ctx):
                       fates=("ok", "fatal"))
         X.model_check(ctx, "K=2, level 2, cancellation at every point", K=2, acc=("x",), level=2, maxlen=1,
                       fates=("ok", "fatal"), cancel=True)
+        X.model_check(ctx, "K=2, level 2, failing GetHandler / Prepare / GetHandler on retry", K=2, acc=("x",), level=2, maxlen=1,
+                      fates=("ok", "nohandler", "noprep", "retryh"))
         if not ctx.quick():
+            X.model_check(ctx, "K=3, level 2, failing GetHandler / Prepare / GetHandler on retry", K=3, acc=("x",), level=2,
+                          maxlen=1, fates=("ok", "fatal", "nohandler", "noprep", "retryh"))
             X.model_check(ctx, "K=3, level 2, cancellation at every point", K=3, acc=("x",), level=2, maxlen=1,
                           fates=("ok", "fatal"), cancel=True)
             X.model_check(ctx, "K=3, level 2, retryable / retry-exhausted / non-retryable failure", K=3, acc=("x",),
@@ -32,20 +36,23 @@ def run(ctx):
     for i, level in enumerate((2, 3)):
         cases += X.generate(ctx, n, ctx.seed + 20 + i, K=3, acc=("x", "y"), level=level, maxlen=2,
                             fates=("ok", "fatal", "retry1", "retryx"), maxfail=1)
+    # errors of GetHandler (at dispatch / on retry) and of Prepare: the dispatcher returns while transactions are in flight
+    cases += X.generate(ctx, ctx.pick(40, 600), ctx.seed + 23, K=3, acc=("x", "y"), level=2, maxlen=1,
+                        fates=("ok", "nohandler", "noprep", "retryh"), maxfail=1)
     # cancellation: the canceler is called at a TLC-chosen point while transactions are in flight
     cases += X.generate(ctx, ctx.pick(60, 600), ctx.seed + 25, K=3, acc=("x", "y"), level=2, maxlen=1,
                         fates=("ok", "fatal"), maxfail=1, cancel=True)
     if not ctx.quick():
         cases += X.generate(ctx, n // 2, ctx.seed + 27, K=4, acc=("x", "y"), level=4, maxlen=1,
                             fates=("ok", "fatal", "retryx"), maxfail=2)
-    failing = sum(1 for c in cases if c["steps"][-1]["seq"]["result"] == "err")
+    failing = sum(1 for c in cases if c["steps"][-1]["seq"]["presult"] == "err")
     ctx.log("cases: %d, with a failing transaction: %d" % (len(cases), failing))
     if failing == 0:
         raise X.MachineryError("vacuity: no generated block has a failing transaction")
     # 3. replay (sequential executor, scheduled concurrent executor, free-running concurrent executor)
     recs = X.replay(ctx, cases, shards=ctx.pick(2, 4))
     X.validate_traces(ctx, recs, {"b%d" % i: c for i, c in enumerate(cases)})
-    for c in [c for c in cases if c["steps"][-1]["seq"]["result"] == "err"][:2]:
+    for c in [c for c in cases if c["steps"][-1]["seq"]["presult"] == "err"][:2]:
         ctx.sample([{k: s[k] for k in ("op", "t", "i", "k", "a", "val", "out")} | ({"prog": s["prog"]} if s["op"] == "top" else {})
                     for s in c["steps"]])
     return ctx.finish(
